@@ -1,5 +1,6 @@
 import Hertz.Proofs.Resp
 import Hertz.Spec.Http
+import Hertz.Proofs.SpecHex
 import Hertz.Proofs.Dec
 namespace Hertz.ReqDecodes
 open Hertz Hertz.Gen.Str Hertz.Spec.Http
@@ -292,7 +293,8 @@ theorem chunksAux_encode : ∀ (cs : List Bytes) (X acc : Bytes) (fuel : Nat),
     have h15 : ¬ (H1.Resp.writeHexInt c.length).length > 15 := by
       have := writeHexInt_length_le _ hlen; omega
     have hlen16 : c.length < 16 ^ 16 := Nat.lt_trans hlen (by decide)
-    simp only [trimOWS_writeHexInt, h15, if_false, parseHex_writeHexInt _ hlen16]
+    have hhb := Spec.Http.head_not_blank_of_parseHex _ _ (parseHex_writeHexInt c.length hlen16)
+    simp only [hhb, Bool.false_eq_true, trimOWS_writeHexInt, h15, if_false, parseHex_writeHexInt _ hlen16]
     have hpos : c.length ≠ 0 := by simpa using hne
     cases hl : c.length with
     | zero => exact absurd hl hpos
